@@ -5,6 +5,8 @@ import (
 	"log"
 
 	"github.com/HobbyOSs/gosk/internal/ast" // Change import to ast
+	"github.com/HobbyOSs/gosk/internal/codegen"
+	"github.com/HobbyOSs/gosk/pkg/ocode"
 )
 
 // processNoParam now matches the opcodeEvalFn signature and accepts the instruction name.
@@ -18,6 +20,14 @@ func processNoParam(env *Pass1, operands []ast.Exp, instName string) { // Add in
 		return
 	}
 	env.LOC += 1
+	// 1 バイトでない命令 (0F xx, x87, 66h 付き) は実際に出力されるバイト数に合わせる
+	if kind, err := ocode.OcodeKindString("Op" + instName); err == nil {
+		if code, ok, encErr := codegen.NoParamEncoding(kind, env.BitMode); ok && encErr == nil {
+			env.LOC += int32(len(code)) - 1
+		} else if encErr != nil {
+			env.LOC -= 1 // 何も出力されない (コード生成でエラーになる)
+		}
+	}
 	// Emit the instruction name as ocode (改行なし).
 	env.Client.Emit(fmt.Sprintf("%s", instName)) // Remove newline
 }
